@@ -19,6 +19,8 @@ EXPLANATION = (
     '(D5) the two pivot searches cover exactly the reduced column: the column scan starts at row k+1 and walks to the end of the '
     'column, the row scan runs over j in [k, r) reading A[r, j], and the stored part of column r is scanned whenever r is not the '
     'last column. '
+    '(D6) a second factorization on the same object (every set_shift of the dense wrapper) sees nothing of the first: compute() '
+    'overwrites as a whole the permutation, the interchange list, the column pointers and the status before reading them (shared with C06). '
     'Does NOT decide the residual bound of solve(), the agreement of lower/upper results to rounding, or the pivoting strategy.')
 ASSUMPTIONS = ['exact comparison with zero is the documented singularity test']
 
@@ -486,6 +488,8 @@ def pivot_search_coverage(ctx, rule='pivot-search-covers-reduced-column'):
 
 def run(ctx):
     pivot_search_coverage(ctx)
+    from . import c06
+    c06.recompute_complete(ctx, only=(('Spectra::BKLDLT', 'compute'), ('Spectra::DenseSymShiftSolve', 'set_shift')))
     status_assigned(ctx)
     pivot_guards(ctx)
     pivot_candidate_tested(ctx)
